@@ -102,7 +102,11 @@ impl Params {
 
 impl MatSpec {
     pub fn new(log_h: usize, width: usize, two_points: bool) -> Self {
-        MatSpec { log_h, width, two_points, constant: false }
+        MatSpec { log_h, width, two_points, constant: false, next_only: false }
+    }
+    /// opened at the single point `zeta·g` (and not at `zeta`)
+    pub fn next_only(log_h: usize, width: usize) -> Self {
+        MatSpec { log_h, width, two_points: false, constant: false, next_only: true }
     }
 }
 
@@ -116,6 +120,9 @@ pub struct MatSpec {
     /// every column is a constant polynomial (its quotient `(p(z) − p(X))/(z − X)` is identically
     /// zero) — only used by the foreign-schedule probes
     pub constant: bool,
+    /// opened at exactly one point, `zeta·g` instead of `zeta` (two single-point matrices of one
+    /// height with DIFFERENT points must not share the one-point fast path of `open_input`)
+    pub next_only: bool,
 }
 
 /// Commitment rounds (one MMCS commitment each) of matrices.
@@ -132,7 +139,7 @@ impl PcsShape {
             .iter()
             .map(|ms| {
                 ms.iter()
-                    .map(|m| format!("{}x{}{}{}", m.log_h, m.width, if m.two_points { "n" } else { "" }, if m.constant { "c" } else { "" }))
+                    .map(|m| format!("{}x{}{}{}{}", m.log_h, m.width, if m.two_points { "n" } else { "" }, if m.constant { "c" } else { "" }, if m.next_only { "g" } else { "" }))
                     .collect::<Vec<_>>()
                     .join(",")
             })
@@ -141,7 +148,7 @@ impl PcsShape {
     }
     pub fn to_json(&self) -> Value {
         json!({"params": self.params.to_json(),
-               "rounds": self.rounds.iter().map(|ms| ms.iter().map(|m| json!([m.log_h, m.width, m.two_points, m.constant])).collect::<Vec<_>>()).collect::<Vec<_>>()})
+               "rounds": self.rounds.iter().map(|ms| ms.iter().map(|m| json!([m.log_h, m.width, m.two_points, m.constant, m.next_only])).collect::<Vec<_>>()).collect::<Vec<_>>()})
     }
     pub fn from_json(v: &Value) -> Option<PcsShape> {
         let params = Params::from_json(&v["params"])?;
@@ -154,6 +161,7 @@ impl PcsShape {
                     width: m.get(1)?.as_u64()? as usize,
                     two_points: m.get(2)?.as_bool()?,
                     constant: m.get(3).and_then(|x| x.as_bool()).unwrap_or(false),
+                    next_only: m.get(4).and_then(|x| x.as_bool()).unwrap_or(false),
                 });
             }
             rounds.push(ms);
@@ -227,7 +235,9 @@ fn domain_of(m: &MatSpec) -> Domain {
 }
 
 fn points_of(m: &MatSpec, zeta: Challenge) -> Vec<Challenge> {
-    if m.two_points {
+    if m.next_only {
+        vec![zeta * Challenge::from(F::two_adic_generator(m.log_h))]
+    } else if m.two_points {
         vec![zeta, zeta * Challenge::from(F::two_adic_generator(m.log_h))]
     } else {
         vec![zeta]
@@ -763,13 +773,16 @@ impl PcsEngine {
                     if mv.len() != n_points {
                         return Err("build:StatementShape".to_string());
                     }
-                    let mut pts = vec![(zeta, mv[0].clone())];
-                    if m.two_points {
+                    let mut pts = vec![];
+                    if !m.next_only {
+                        pts.push((zeta, mv[0].clone()));
+                    }
+                    if m.two_points || m.next_only {
                         let zn = *next_points.entry(m.log_h).or_insert_with(|| {
                             let g = cb.define_const(Challenge::from(F::two_adic_generator(m.log_h)));
                             cb.mul(zeta, g)
                         });
-                        pts.push((zn, mv[1].clone()));
+                        pts.push((zn, mv[if m.next_only { 0 } else { 1 }].clone()));
                     }
                     mats.push((domain_of(m), pts));
                 }
